@@ -111,7 +111,14 @@ impl FeelNumber {
   }
   ///
   pub fn even(&self) -> bool {
-    dec_is_zero(&dec_remainder(&self.0, &DEC_TWO))
+    let remainder = dec_remainder(&self.0, &DEC_TWO);
+    if dec_is_finite(&remainder) {
+      dec_is_zero(&remainder)
+    } else {
+      // the integer quotient needs more than 34 digits, so this (finite) number
+      // is an integer with a positive exponent, i.e. a multiple of ten
+      dec_is_finite(&self.0)
+    }
   }
   ///
   pub fn exp(&self) -> Self {
@@ -152,7 +159,7 @@ impl FeelNumber {
   }
   ///
   pub fn odd(&self) -> bool {
-    self.is_integer() && !dec_is_zero(&dec_remainder(&self.0, &DEC_TWO))
+    self.is_integer() && !self.even()
   }
   ///
   pub fn pow(&self, rhs: &FeelNumber) -> Option<Self> {
